@@ -69,10 +69,15 @@ def pushScan (ns : Array Node) (prio : Nat) : Nat → Option Nat → Nat → Res
 
 /-- `Push` (fixed code: the head comparison is `<=`, F-21). -/
 def push (q : PQ) (val : Pkt) (prio : Nat) : Res PQ :=
-  let new := q.nodes.size
-  let ns := q.nodes.push { val := some val, next := none, prev := none, prio := prio }
-  match q.head with
-  | none => .ok { nodes := ns, head := some new, length := inc16 q.length }
+  -- (the fields are read first so that the compiled driver can update the node array in place)
+  let qhead := q.head
+  let qlength := q.length
+  let nodes := q.nodes
+  let new := nodes.size
+  let fl := fuel nodes
+  let ns := nodes.push { val := some val, next := none, prev := none, prio := prio }
+  match qhead with
+  | none => .ok { nodes := ns, head := some new, length := inc16 qlength }
   | some h =>
     match ns[h]? with
     | none => .panic "dangling"
@@ -81,20 +86,20 @@ def push (q : PQ) (val : Pkt) (prio : Nat) : Res PQ :=
         -- newPq.next = q.next; q.next.prev = newPq; q.next = newPq
         let ns := ns.modify new (fun x => { x with next := some h })
         let ns := ns.modify h (fun x => { x with prev := some new })
-        .ok { nodes := ns, head := some new, length := inc16 q.length }
+        .ok { nodes := ns, head := some new, length := inc16 qlength }
       else
-        match pushScan ns prio (fuel q.nodes) (some h) h with
+        match pushScan ns prio fl (some h) h with
         | .ok (none, p) =>
           -- prev.next = newPq; newPq.prev = prev
           let ns := ns.modify p (fun x => { x with next := some new })
           let ns := ns.modify new (fun x => { x with prev := some p })
-          .ok { nodes := ns, head := q.head, length := inc16 q.length }
+          .ok { nodes := ns, head := qhead, length := inc16 qlength }
         | .ok (some c, p) =>
           -- newPq.next = head; newPq.prev = prev; prev.next = newPq; head.prev = newPq
           let ns := ns.modify new (fun x => { x with next := some c, prev := some p })
           let ns := ns.modify p (fun x => { x with next := some new })
           let ns := ns.modify c (fun x => { x with prev := some new })
-          .ok { nodes := ns, head := q.head, length := inc16 q.length }
+          .ok { nodes := ns, head := qhead, length := inc16 qlength }
         | .err e => .err e
         | .panic s => .panic s
 
